@@ -93,6 +93,14 @@ def check(run, prog):
         ck.same("R1", f_td.where, "time_delay: unit independence", "the delay does not use raw .value of a Quantity whose unit is the caller's choice",
                 not bad, found=f"term depends on {bad}" if bad else None, nontrivial=True)
 
+    # ------------------------------------------------------------------ RF: the reference frequency in its accepted forms
+    # "at infinite frequency" is written np.inf as often as np.inf * u.MHz; both mean 1/f_ref = 0
+    for clsname, nchan in (("RadioSignal", 2), ("BasebandSignal", 3)):
+        zf = make_signal(prog, clsname, nchan=nchan, freq_align="center")
+        ck.forms("RF", f_inc.where, f"incoherent_dedispersion({clsname}[nchan={nchan}], DM, ref_freq=inf)",
+                 lambda ev, v, zf=zf: ev.call(f_inc, [zf, dm], {"ref_freq": v}),
+                 [("inf * u.Hz", Num(sp.oo * Hz, kind="quantity")), ("bare inf", Num(sp.oo))],
+                 "an infinite reference frequency means the same whether or not it carries a unit")
     # ------------------------------------------------------------------ R2
     fref = sp.Symbol("fref", positive=True)
     scen = [("RadioSignal", 3, "center", None, True), ("RadioSignal", 4, "bottom", fref, True),
